@@ -14,3 +14,5 @@ mod k_spec;
 mod k_client;
 #[cfg(kani)]
 mod k_plan;
+#[cfg(kani)]
+mod k_vc;
